@@ -2,7 +2,7 @@ import torch
 
 from ..domain import Domain, BoundaryDomain
 from ...spaces import Points
-from .parallelogram import BARY_ATOL
+from .parallelogram import BARY_ATOL, _bary_atol, _bary_close
 
 
 class Triangle(Domain):
@@ -211,24 +211,21 @@ class TriangleBoundary(BoundaryDomain):
         points = points[:, list(self.space.keys())].as_tensor
         points -= origin
         bary_x, bary_y = self.domain._solve_lgs(points, dir_1, -dir_3)
-        x_close_to_0 = self._bary_coords_close_to_0_or_1(bary_x, bary_y)
-        y_close_to_0 = self._bary_coords_close_to_0_or_1(bary_y, bary_x)
-        sum_close_to_1 = torch.isclose(
-            bary_x + bary_y, torch.tensor(1.0), atol=BARY_ATOL
-        )
+        atol = _bary_atol(origin, dir_1, -dir_3)
+        x_close_to_0 = self._bary_coords_close_to_0_or_1(bary_x, bary_y, atol)
+        y_close_to_0 = self._bary_coords_close_to_0_or_1(bary_y, bary_x, atol)
+        sum_close_to_1 = _bary_close(bary_x + bary_y, 1.0, atol)
         # the third edge ends at corner_1 and corner_2: exclude the rest of the
         # line through these corners
-        between_corners = torch.logical_and(bary_x >= -BARY_ATOL, bary_y >= -BARY_ATOL)
+        between_corners = torch.logical_and(bary_x >= -atol, bary_y >= -atol)
         sum_close_to_1 = torch.logical_and(sum_close_to_1, between_corners)
         close_to_0 = torch.logical_or(x_close_to_0, y_close_to_0)
         return torch.logical_or(close_to_0, sum_close_to_1).reshape(-1, 1)
 
-    def _bary_coords_close_to_0_or_1(self, bary_coord1, bary_coord2):
+    def _bary_coords_close_to_0_or_1(self, bary_coord1, bary_coord2, atol=BARY_ATOL):
         # the edge includes its end points (the corners), up to the same tolerance
-        between_0_1 = torch.logical_and(
-            -BARY_ATOL <= bary_coord2, bary_coord2 <= 1 + BARY_ATOL
-        )
-        close_to_0 = torch.isclose(bary_coord1, torch.tensor(0.0), atol=BARY_ATOL)
+        between_0_1 = torch.logical_and(-atol <= bary_coord2, bary_coord2 <= 1 + atol)
+        close_to_0 = _bary_close(bary_coord1, 0.0, atol)
         return torch.logical_and(close_to_0, between_0_1)
 
     def sample_random_uniform(
@@ -305,9 +302,12 @@ class TriangleBoundary(BoundaryDomain):
         normal_dir_3 = self._get_normal_direction(dir_3, device)
         # compute for each point what the normal vector should be, by checking the
         # value of the local barycentric coordinate = 0 or sum = 1
-        self._add_local_normal_vector(normals, bary_x, normal_dir_3, 0.0)
-        self._add_local_normal_vector(normals, (bary_x + bary_y), normal_dir_2, 1.0)
-        self._add_local_normal_vector(normals, bary_y, normal_dir_1, 0.0)
+        atol = _bary_atol(origin, dir_1, -dir_3)
+        self._add_local_normal_vector(normals, bary_x, normal_dir_3, 0.0, atol)
+        self._add_local_normal_vector(
+            normals, (bary_x + bary_y), normal_dir_2, 1.0, atol
+        )
+        self._add_local_normal_vector(normals, bary_y, normal_dir_1, 0.0, atol)
         # the rotated edge directions point outwards only if the corners are ordered
         # counter clockwise; the sign of the determinant corrects the other case
         normals *= torch.sign(
@@ -316,10 +316,8 @@ class TriangleBoundary(BoundaryDomain):
         # scale normal vectors if there where in a corner:
         return torch.divide(normals, torch.linalg.norm(normals, dim=1).reshape(-1, 1))
 
-    def _add_local_normal_vector(self, normals, bary_coord, normal, i):
-        close_to_i = torch.where(
-            torch.isclose(bary_coord, torch.tensor(i), atol=BARY_ATOL), 1.0, 0.0
-        )
+    def _add_local_normal_vector(self, normals, bary_coord, normal, i, atol=BARY_ATOL):
+        close_to_i = torch.where(_bary_close(bary_coord, i, atol), 1.0, 0.0)
         normals += normal * close_to_i
 
     def _get_normal_direction(self, direction, device):
